@@ -895,6 +895,16 @@ class Interp:
                 if len(items) != len(target.elts):
                     self.emit("raise", st, value=Term("exc", "ValueError", "unpack arity"))
                     raise _Raise(Term("exc", "ValueError", "unpack arity"), st)
+            elif isinstance(v, Const) and isinstance(v.v, (str, bytes)):
+                if len(v.v) != len(target.elts):
+                    x = Term("exc", "ValueError", f"cannot unpack {v.v!r} into {len(target.elts)} names")
+                    self.emit("raise", st, value=x)
+                    raise _Raise(x, st)
+                items = [Const(c) for c in v.v]
+            elif isinstance(v, (Const, Obj, Cls)):
+                x = Term("exc", "TypeError", f"cannot unpack non-iterable {show(v)}")
+                self.emit("raise", st, value=x)
+                raise _Raise(x, st)
             else:
                 self.emit("unpack", st, value=v, arity=len(target.elts), loop_target=loop_target)
                 items = [Term("unpack", v, i) for i in range(len(target.elts))]
@@ -1499,6 +1509,8 @@ class Interp:
         return self.apply(Fn(target, selfv if selfv is not None else Term("param", "self", hint=ci)), args, kwargs, starkw, e, frame, False)
 
     def apply(self, callee, args, kwargs, starkw, node, frame, awaited) -> Value:
+        if isinstance(callee, Foreign) and callee.dotted == "typing.cast" and len(args) == 2:
+            return args[1]
         if isinstance(callee, Builtin):
             r = self.call_builtin(callee.name, args, kwargs, node, frame)
             if r is not NotImplemented:
